@@ -21,6 +21,9 @@ def dispatch (mode : String) : Option (List String → Verdict) :=
   | "C05" => some SockModel.Drive.C04.runCaseC05
   | "C08" => some SockModel.Drive.C04.runCaseC08
   | "C06legacy" => some SockModel.Drive.C06.runCaseLegacy
+  | "C13" => some SockModel.Drive.C13.runCase
+  | "C11" => some SockModel.Drive.C11.runCase
+  | "C12" => some SockModel.Drive.C12.runCase
   | _ => none
 
 def main (args : List String) : IO UInt32 := do
